@@ -29,6 +29,17 @@ def run_config(a, kind, method, dtype, extra_opts=None, build_opts=None, pat=Non
         if pat:
             bo['patterned'] = AG.pattern_hooks(pat)
         hist = bo.pop('history', None)
+        tiny = bo.pop('tiny_start', False)
+        a_orig = a
+        if tiny:
+            import copy
+            a = copy.deepcopy(a)
+            a['els']['lam'] = {'t': True, 'type': []}
+            a['elorder'] = a['elorder'] + ['lam']
+            a['w']['lam'], a['wmp']['lam'] = [1], [0]
+            for r_ in a['rules']:
+                if r_['lhs'] == a['start']:
+                    r_['edges'].append({'lab': 'lam', 'att': []})
         if hist == 'rule_added_later' and len(a['rules']) >= 2:
             bo['defer_rules'] = 1
         g, info = AG.build_fgg(a, kind, dtype, **bo)
@@ -65,6 +76,8 @@ def run_config(a, kind, method, dtype, extra_opts=None, build_opts=None, pat=Non
                     else:
                         from fggs.indices import PatternedTensor
                         g.factors[t].weights = PatternedTensor(olds[t], w.paxes, w.vaxes, w.default)   # through the setter
+        if tiny:
+            g.factors['lam'].weights = torch.tensor(2.0 ** -40, dtype=dtype)
         with warnings.catch_warnings(record=True) as wl:
             warnings.simplefilter('always')
             with torch.no_grad():
@@ -72,7 +85,10 @@ def run_config(a, kind, method, dtype, extra_opts=None, build_opts=None, pat=Non
         run['warnings'] = [str(w.message)[:80] for w in wl if 'iteration' in str(w.message)]
         for el, t in sp.items():
             if el.is_nonterminal:
-                run['res'][el.name] = AG.project_tensor(t.to_dense(), kind, dtype)
+                d = t.to_dense()
+                if tiny and el.name == a['start']:
+                    d = d * (2.0 ** 40)            # exact: a power of two
+                run['res'][el.name] = AG.project_tensor(d, kind, dtype)
     except Exception as e:  # noqa
         run['out'] = 'raise:' + type(e).__name__
         run['err'] = str(e)[:200]
@@ -107,6 +123,10 @@ def make_case(a, tier, idx=0):
             if idx % 3 == 2:
                 # the start symbol declared last (the grammar object is created around another nonterminal)
                 runs.append(run_config(a, kind, METHODS[idx % 2], dt, build_opts={'start_last': True}))
+            if kind == 'real' and idx % 2 == 0 and not a.get('pat'):
+                # the same grammar with a scalar factor 2^-40 on every rule of the start symbol: all its values are tiny
+                # (below any stopping tolerance) and exactly 2^-40 times the original ones
+                runs.append(run_config(a, kind, 'fixed-point', dt, build_opts={'tiny_start': True}))
             if idx % 3 == 0 and not a.get('pat'):
                 # every factor's weights are a view at a non-zero storage offset of a larger table
                 runs.append(run_config(a, kind, METHODS[(idx // 3) % 3], dt, build_opts={'offset_views': True}))
@@ -198,7 +218,7 @@ def cases_for(tier, seed, work, o: Outcome):
         if npat >= nrand // 3:
             break
         a2, pat = AG.patternise(rng, a)
-        if pat and AG.nat_bound(a2) < (1 << 24):
+        if pat and AG.nat_bound(a2) < 800000:        # (the integer carrier of the projection ends at 900 000)
             ags.append(dict(a2, pat=pat))
             npat += 1
     o.extra['grammars_with_patterned_weights'] = npat
@@ -208,7 +228,9 @@ def cases_for(tier, seed, work, o: Outcome):
         a = AG.gen_passthrough(rng)
         if i % 2 == 1:
             a2, pat = AG.patternise(rng, a)
-            a = dict(a2, pat=pat) if pat else a
+            a = dict(a2, pat=pat) if pat and AG.nat_bound(a2) < 800000 else a
+        if AG.nat_bound(a) >= 800000:
+            continue                                    # outside the integer carrier of the projection
         ags.append(a)
     o.extra['pass_through_grammars'] = npass
     # sparsely patterned rule results multiplied by the domain size of edge-less internal nodes
@@ -216,6 +238,8 @@ def cases_for(tier, seed, work, o: Outcome):
     for i in range(nsp):
         ags.append(AG.gen_sparse_rule(rng))
     o.extra['sparse_rule_grammars'] = nsp
+    # every value must lie on the integer carrier of the projection (below 900 000): a crude upper bound decides
+    ags = [a for a in ags if AG.nat_bound(a) < 800000]
     return ags
 
 
